@@ -224,8 +224,11 @@ func c02AllPaths(r *core.Run, pk, msg, sig []byte, v c02Variant) (acc, total int
 		var ok bool
 		pan, pmsg := Guard(func() { ok = ed25519.VerifyWithOptions(pk, msg, sig, o) })
 		if pan {
-			// only reachable with altered option-relevant inputs (e.g. a 63-byte pre-hash): counts as rejection
-			_ = pmsg
+			// a documented panic (key that is not 32 bytes, pre-hash that is not 64 bytes, context over 255 bytes) counts
+			// as rejection; any other panic is not an answer
+			if len(pk) == ed25519.PublicKeySize && (!v.ph || len(msg) == 64) && len(v.ctx) <= ed25519.ContextMaxSize && len(r.Main.Fails()) == 0 {
+				r.Fail("integrity", "verify-panicked", "VerifyWithOptions[%s] panicked on a %d-byte signature where it documents no panic: %s", c02presetNames[i], len(sig), pmsg)
+			}
 			ok = false
 		}
 		r.Count(c02verifies)
@@ -269,7 +272,10 @@ func c02AllPaths(r *core.Run, pk, msg, sig []byte, v c02Variant) (acc, total int
 		for k := 0; k < 2; k++ {
 			eok := false
 			if ek != nil {
-				if pan, _ := Guard(func() { eok = ed25519.VerifyExpandedWithOptions(ek, msg, sig, o) }); pan {
+				if pan, pmsg := Guard(func() { eok = ed25519.VerifyExpandedWithOptions(ek, msg, sig, o) }); pan {
+					if (!v.ph || len(msg) == 64) && len(v.ctx) <= ed25519.ContextMaxSize && len(r.Main.Fails()) == 0 {
+						r.Fail("integrity", "verify-panicked", "VerifyExpandedWithOptions[%s] panicked on a %d-byte signature where it documents no panic: %s", c02presetNames[i], len(sig), pmsg)
+					}
 					eok = false
 				}
 			}
